@@ -266,6 +266,18 @@ def body_inplace(h):
     num = h.int('num', 0, 255)
     st = h.concretize(start, 300)
     nm = h.concretize(num, 300)
+    if which == 'midself':
+        # MID$(A$, start, num) = A$ : source and target are the same string; GW-BASIC copies byte
+        # by byte from left to right, so already overwritten bytes are copied again
+        T.midset(st, nm, T)
+        got = list(T.to_str())
+        k = min(nm, Lt, max(0, Lt - (st - 1)))
+        want = list(ti)
+        for i in range(k):
+            want[st - 1 + i] = want[i]
+        h.require('midself-length-unchanged', len(got) == Lt)
+        h.require('midself-left-to-right', bytes_eq(got, want))
+        return got
     T.midset(st, nm, Vv)
     got = list(T.to_str())
     h.require('midset-length-unchanged', len(got) == Lt)
@@ -299,9 +311,9 @@ def cases(tier):
             cs.append(Case('cmp-%d-%d' % (La, Lb), body_cmp, params={'lens': (La, Lb)}))
     for lens in ((254, 1), (255, 0), (255, 1), (200, 56), (128, 128)):
         cs.append(Case('limit-%d-%d' % lens, body_toolong, params={'lens': lens}))
-    for lens in ((0, 2), (2, 0), (3, 2), (2, 3), (3, 3)):
-        for which in ('lset', 'rset', 'midset'):
-            if which == 'midset' and lens[0] == 0:
+    for lens in ((0, 2), (2, 0), (3, 2), (2, 3), (3, 3), (5, 1)):
+        for which in ('lset', 'rset', 'midset', 'midself'):
+            if which in ('midset', 'midself') and lens[0] == 0:
                 continue
             cs.append(Case('%s-%d-%d' % (which, lens[0], lens[1]), body_inplace,
                            params={'lens': lens, 'which': which}, max_fanout=600))
